@@ -115,6 +115,15 @@ def main():
     for i in range(0, len(reqs), 40):
         jobs.append(reqs[i:i + 40])
     chk.cov['markup_carrying_valid_numbers'] = [x for _, x in found][:20]
+    # numeral floods: n copies of one character that some str predicate takes for a digit (isdigit / isdecimal / isnumeric
+    # disagree on these), every length 1..20 -- the inputs on which a validator that swapped isdigits() for a str method
+    # raises from is_valid(), which the application does not guard
+    floods = []
+    for ch in ('\u00b2', '\u0663', '\u2460', '\u4e00', '\u00bd', '\u216b', '\uff15', '\U0001d7d7'):
+        for n in (range(1, 21) if quick else range(1, 41)):
+            floods.append({'qs': q(ch * n), 'ajax': bool(n % 2), 'marker': '', 'cls': 'flood:U+%04X' % ord(ch), 'fresh': False})
+    for i in range(0, len(floods), 40):
+        jobs.append(floods[i:i + 40])
     # every corpus number of every module, both modes, in batches (drives format/compact/to_*/get_* of every module)
     flat = []
     for name in sorted(per_mod):
